@@ -12,3 +12,40 @@ Theorem zconvert_clamped_mono : forall z L1 L2 lo hi, wfz z = true -> lo <= hi -
   Z.max lo (Z.min hi (zconvert z L1)) <= Z.max lo (Z.min hi (zconvert z L2)).
 Proof. exact zconvert_clamped_mono_lemma. Qed.
 Print Assumptions zconvert_clamped_mono.
+
+From CCTZ Require Import Base Cal CivilImpl ZoneLoad ZoneImpl ZoneZ ZoneRefineDefs ZoneRefine FutureDefs LoadCert ImplRoundTrip.
+
+(* IMPLEMENTATION LEVEL: convert() (trans for SKIPPED, pre otherwise) preserves order; `pre` alone does not
+   (ImplRoundTrip.pre_not_monotone) *)
+Theorem c06_convert_mono_impl : forall z h1 h2 cs1 cs2,
+  zone_ok z = true -> valid_fields cs1 = true -> valid_fields cs2 = true ->
+  int64 (fy cs1) -> int64 (fy cs2) ->
+  (z_extended z = false \/ fy cs2 <= z_last_year z) ->
+  sec_of cs1 < sec_of cs2 ->
+  exists a b, convert_cs z h1 cs1 = OK a /\ convert_cs z h2 cs2 = OK b /\ a <= b.
+Proof. exact c06_convert_mono_impl_lemma. Qed.
+Print Assumptions c06_convert_mono_impl.
+
+Theorem c06_convert_mono_future : forall z h1 h2 cs1 cs2 l,
+  zone_ok z = true -> z_extended z = true -> last_opt (z_trans z) = Some l ->
+  P400 <= tr_time l -> fy (tr_cs l) = z_last_year z -> fy (tr_pcs l) <= z_last_year z ->
+  (* the table's tail is consistent where the 400-year blocks meet (the end of local year last_year) *)
+  (forall E, fy (civil_of_seconds E) <= z_last_year z -> z_last_year z < fy (civil_of_seconds (E + 1)) ->
+     zconvert (abs_zone z) E <= zconvert (abs_zone z) (E + 1 - P400) + P400) ->
+  valid_fields cs1 = true -> valid_fields cs2 = true -> int64 (fy cs1) -> int64 (fy cs2) ->
+  sec_of cs1 < sec_of cs2 ->
+  exists a b, convert_cs z h1 cs1 = OK a /\ convert_cs z h2 cs2 = OK b /\ a <= b.
+Proof. exact c06_convert_mono_future_lemma. Qed.
+Print Assumptions c06_convert_mono_future.
+
+Theorem c06_every_accepted_file : forall bs z h1 h2 cs1 cs2,
+  load_bytes bs = OK (Some z) ->
+  gaps_wide (zz_doff (abs_zone z)) (zz_tr (abs_zone z)) = true ->
+  valid_fields cs1 = true -> valid_fields cs2 = true ->
+  int64 (fy cs1) -> int64 (fy cs2) ->
+  (z_extended z = false \/ fy cs2 <= z_last_year z) ->
+  sec_of cs1 < sec_of cs2 ->
+  exists a b, convert_cs z h1 cs1 = OK a /\ convert_cs z h2 cs2 = OK b /\ a <= b.
+Proof. exact accepted_c06_convert_mono_lemma. Qed.
+Print Assumptions c06_every_accepted_file.
+
